@@ -760,7 +760,10 @@ fn balance(content: &[u32]) -> Vec<u32> {
 }
 
 fn bidi_case(rng: &mut Rng, modes: &[(&'static str, usize)], allow_ds: bool) -> (String, Input) {
-    let mode = pick_mode(rng, modes);
+    // a stream's own list of text modes says where its property is most likely to break; one case in seven is drawn
+    // from EVERY mode instead, so that no stream lacks a shape that another stream has (the blind seeded changes kept
+    // finding such holes: no deep nesting in C08's stream, no arbitrary scalar values in C07's, ...)
+    let mode = if rng.chance(1, 7) { pick_mode(rng, &MODES_ALL) } else { pick_mode(rng, modes) };
     let enc = if rng.chance(2, 3) { Enc::U8 } else { Enc::U16 };
     let api = if rng.chance(3, 4) { Api::B } else { Api::P };
     let dir = pick_dir(rng);
